@@ -7,7 +7,9 @@ supported_srs (equality loop, best_srs, or inherited by the sub-query) and prefe
 returns available entries (C17.b); the format passed on went through the supported_formats
 negotiation (C17.c); the unsplit request only runs when the extent contains the query,
 otherwise the sub-query limited to the extent, which raises for an empty size (C17.d); only
-configured dimensions are forwarded (C17.e)."""
+configured dimensions are forwarded (C17.e).
+Added in round 4: the SRS chosen among the supported ones is the element of the configured list
+(C17.k); every source class keeps the gate settings its constructor receives (C17.l)."""
 import ast
 
 from ..engine import rule
